@@ -895,6 +895,91 @@ impl<'a> Gen<'a> {
                 self.push(Step::new(cl, op).a(which, salt, 0).s(s.clone()).t(t));
                 self.push(Step::new(cl, StrInRe).a(which, salt, 0).s(s));
             }
+            30 if self.single_cells.len() >= 3 && self.rng.chance(1, 3) => {
+                // a language that is empty only semantically (Z) sits behind a letter, next to a sibling
+                // that reaches epsilon later: x.((a.Z) + b) is asked first, then a.Z itself (its
+                // derivative is exactly the hash-consed Z the first search walked through), in either order
+                let ns = self.single_cells.len() as u32;
+                let a = self.single_code() % ns;
+                let b = (a + 1) % ns;
+                let x = if self.rng.chance(1, 2) { (a + 2) % ns } else { a };
+                let pc = |g: &Self, code: u32| g.single_cells[code as usize] * 3;
+                let z = match self.rng.below(3) {
+                    0 => {
+                        self.push(Step::new(cl, AllChar));
+                        let s = self.last(c);
+                        self.push(Step::new(cl, Str).s(vec![a, b]));
+                        let t = self.last(c);
+                        self.push(Step::new(cl, Inter).a(s, t, 0));
+                        self.last(c)
+                    }
+                    1 => {
+                        self.push(Step::new(cl, Str).s(vec![a, b]));
+                        let s = self.last(c);
+                        self.push(Step::new(cl, Char).a(a, 0, 0));
+                        let t = self.last(c);
+                        self.push(Step::new(cl, Plus).a(t, 0, 0));
+                        let t = self.last(c);
+                        self.push(Step::new(cl, Inter).a(t, s, 0));
+                        self.last(c)
+                    }
+                    _ => {
+                        self.push(Step::new(cl, Str).s(vec![b, a]));
+                        let s = self.last(c);
+                        self.push(Step::new(cl, Str).s(vec![b, b]));
+                        let t = self.last(c);
+                        self.push(Step::new(cl, Compl).a(t, 0, 0));
+                        let nt = self.last(c);
+                        self.push(Step::new(cl, Str).s(vec![b]));
+                        let u = self.last(c);
+                        self.push(Step::new(cl, AllChar));
+                        let d = self.last(c);
+                        self.push(Step::new(cl, Concat).a(u, d, 0));
+                        let bd = self.last(c);
+                        self.push(Step::new(cl, Diff).a(bd, s, 0));
+                        let w = self.last(c);
+                        self.push(Step::new(cl, Str).s(vec![b, a]));
+                        let s2 = self.last(c);
+                        self.push(Step::new(cl, Inter).a(nt, s2, 0));
+                        let _ = self.last(c);
+                        self.push(Step::new(cl, Inter).a(w, s, 0));
+                        self.last(c)
+                    }
+                };
+                self.push(Step::new(cl, Char).a(a, 0, 0));
+                let ha = self.last(c);
+                self.push(Step::new(cl, Concat).a(ha, z, 0));
+                let az = self.last(c);
+                self.push(Step::new(cl, Char).a(b, 0, 0));
+                let hb = self.last(c);
+                let u = if self.rng.chance(1, 2) {
+                    self.push(Step::new(cl, Union).a(az, hb, 0));
+                    self.last(c)
+                } else {
+                    self.push(Step::new(cl, Str).s(vec![b, a]));
+                    let hb2 = self.last(c);
+                    self.push(Step::new(cl, Union).a(hb2, az, 0));
+                    self.last(c)
+                };
+                self.push(Step::new(cl, Char).a(x, 0, 0));
+                let hx = self.last(c);
+                self.push(Step::new(cl, Concat).a(hx, u, 0));
+                let xu = self.last(c);
+                let (qx, qa) = (pc(self, x), pc(self, a));
+                let first_outer = self.rng.chance(3, 4);
+                if first_outer {
+                    self.push(Step::new(cl, StartChar).a(xu, qx, 0));
+                }
+                self.push(Step::new(cl, StartChar).a(az, qa, 0));
+                if !first_outer {
+                    self.push(Step::new(cl, StartChar).a(xu, qx, 0));
+                }
+                let r = self.rng.u32();
+                self.push(Step::new(cl, IsEmpty).a(z, r, 0));
+                self.push(Step::new(cl, IsEmpty).a(az, r, 0));
+                self.push(Step::new(cl, StartChar).a(u, qa, 0));
+                self.push(Step::new(cl, StartChar).a(xu, qx, 0));
+            }
             27..=30 => {
                 // assorted small shapes (each one a family that a seeded change needed)
                 let qcode = |g: &Self, code: u32| -> u32 {
